@@ -467,3 +467,97 @@ def sample_members(g, rng, k=6, min_len=5, max_len=12, tries=200):
         if x is not None and min_len <= len(x) <= max_len:
             out.add(x)
     return sorted(out)
+
+
+# ---------------------------------------------------------------------------
+# scale: grammars beyond the exhaustive bounds (two-digit nonterminal indices, wide alphabets, many alternatives for
+# one head, long bodies, deep unary chains) with weights of moderate size, and strings sampled from them
+def gen_big_grammar(rng, recursion=True):
+    """An (almost) acyclic grammar with 10-16 nonterminals and 6-10 terminals; rule weights around 1 so that string
+    weights stay comparable in floating point.  The only recursion is an optional direct self-loop X -> t X of weight
+    1/4 or 1/8 (gain < 1 whatever the other weights), so every fixed point exists.  recursion=False (used with exact rationals,
+    whose infinite sums the library truncates): the language is finite."""
+    nN = rng.randint(10, 16)
+    nT = rng.randint(6, 10)
+    Ns = [f"N{i}" for i in range(nN)]
+    Ts = [chr(97 + i) for i in range(nT)]
+    W = [Fr(1), Fr(1), Fr(1, 2), Fr(3, 4), Fr(1, 4), Fr(3, 2)]
+    rules = []
+
+    def R(h, *b, w=None):
+        rules.append([w if w is not None else rng.choice(W), h, list(b)])
+
+    for i, h in enumerate(Ns):
+        later = Ns[i + 1:]
+        for _ in range(rng.randint(1, 2)):
+            L = rng.randint(1, 5)
+            pool = (later + Ts + Ts) if later else Ts
+            R(h, *(rng.choice(pool) for _ in range(L)))
+        R(h, rng.choice(Ts))  # every nonterminal generates
+    for i in range(1, nN):  # every nonterminal is used by an earlier one (some of these rules are unary)
+        j = rng.randrange(0, i)
+        R(Ns[j], *([rng.choice(Ts)] if rng.random() < 0.6 else []), Ns[i])
+    h = rng.choice(Ns[:3])  # one head with many alternatives
+    for _ in range(rng.randint(8, 12)):
+        R(h, rng.choice(Ts), *([rng.choice(Ts + Ns[3:])] if rng.random() < 0.5 else []))
+    s0 = rng.randrange(0, nN - 7)  # a deep unary chain
+    for i in range(s0, s0 + rng.randint(6, 7)):
+        R(Ns[i], Ns[i + 1])
+    for _ in range(rng.randint(0, 2) if recursion else 0):  # direct right recursion through a terminal
+        X = rng.choice(Ns)
+        R(X, rng.choice(Ts), X, w=rng.choice([Fr(1, 4), Fr(1, 8)]))
+    for _ in range(rng.randint(0, 2)):
+        R(rng.choice(Ns[nN // 2:]), w=Fr(1, 2))  # empty rules low in the hierarchy
+    rng.shuffle(rules)
+    return {"S": Ns[0], "V": Ts, "rules": rules, "template": "big"}
+
+
+def is_big(g):
+    return len(g["V"]) > 3 or len({h for _, h, _ in g["rules"]}) > 8
+
+
+def perturb(x, V, rng):
+    "a string one edit away from x (mostly outside the language)"
+    x = list(x)
+    V = list(V)
+    r = rng.random()
+    if x and r < 0.35:
+        del x[rng.randrange(len(x))]
+    elif x and r < 0.7:
+        x[rng.randrange(len(x))] = rng.choice(V)
+    elif len(x) >= 2 and r < 0.85:
+        i = rng.randrange(len(x) - 1)
+        x[i], x[i + 1] = x[i + 1], x[i]
+    else:
+        x.insert(rng.randrange(len(x) + 1), rng.choice(V))
+    return tuple(x)
+
+
+def case_strings(g, maxlen, seed, cap=400, k=10, max_len=16, prefixes=False):
+    """Strings to evaluate a case on.  Small grammars: every string up to maxlen (as before).  Big ones (is_big): every
+    string up to the largest length that keeps the total under `cap`, plus sampled members of the language (1..max_len
+    tokens), one-edit perturbations of them and - with prefixes=True - all their prefixes."""
+    import random as _random
+
+    V = sorted(g["V"], key=repr)
+    if not is_big(g):
+        return list(strings_upto(V, maxlen))
+    out, total, L = [()], 1, 1
+    while L <= maxlen and total + len(V) ** L <= cap:
+        out.extend(itertools.product(V, repeat=L))
+        total += len(V) ** L
+        L += 1
+    rng = _random.Random(seed)
+    seen = set(out)
+    mem = sample_members(g, rng, k=k, min_len=1, max_len=max_len, tries=400)
+    extra = []
+    for x in mem:
+        extra.append(tuple(x))
+        extra.append(perturb(x, V, rng))
+        if prefixes:
+            extra.extend(tuple(x[:i]) for i in range(len(x)))
+    for x in extra:
+        if x not in seen:
+            seen.add(x)
+            out.append(x)
+    return out
